@@ -380,12 +380,27 @@ class Builder:
             parts.append(tops[i])
         return ",".join(parts)
 
+    def io_home(self, file, pkg, names, fileidx):
+        """Where a method's request/response message is defined: normally the service's file, sometimes an
+        earlier target file (possibly in another proto sub-package)."""
+        if fileidx > 0 and _p(self.draw, self.p.get("p_foreign_io", 0.15)):
+            j = self.d(st.integers(0, fileidx - 1))
+            f = self.api_files[j]
+            return f, f["package"], self.ns(f["package"]), j
+        return file, pkg, names, fileidx
+
     def request_message(self, file, pkg, names, fileidx, base, special=None):
-        m = self.skeleton(pkg, names, self.p["max_depth"], fileidx, base=base)   # no nested types
-        if special:
-            m["fields"].extend(copy.deepcopy(special))
-        self.fill(m, f"{pkg}.{m['name']}", fileidx, reserve=())
-        file["messages"].append(m)
+        file, pkg, names, fileidx = self.io_home(file, pkg, names, fileidx)
+        saved, self.cur_pkg = self.cur_pkg, pkg
+        try:
+            m = self.skeleton(pkg, names, self.p["max_depth"], fileidx, base=base)   # no nested types
+            if special:
+                m["fields"].extend(copy.deepcopy(special))
+            self.fill(m, f"{pkg}.{m['name']}", fileidx, reserve=())
+            file["messages"].append(m)
+        finally:
+            self.cur_pkg = saved
+        m["_pkg"] = pkg
         return m
 
     def method(self, file, pkg, names, fileidx, mnames, host):
@@ -415,7 +430,7 @@ class Builder:
                 special = [{"name": "page_size", "number": 101, "type": self.d(st.sampled_from(["int32", "int32", "int64"]))},
                            {"name": "page_token", "number": 102, "type": "string"}]
             req = self.request_message(file, pkg, names, fileidx, f"{name}Request", special)
-            meth["input"] = f".{pkg}.{req['name']}"
+            meth["input"] = f".{req.pop('_pkg')}.{req['name']}"
         # response
         if kind == "paged":
             item = self.d(st.sampled_from(["message", "message", "string", "int32", "enum"]))
@@ -506,18 +521,19 @@ class Builder:
         nfiles = self.d(st.integers(1, self.p["max_files"]))
         host = self.d(st.sampled_from(["lib.acme.com", "lib.acme.com", "storage.googleapis.com", "my-api.example.org"]))
         api = {"files": []}
+        self.api_files = api["files"]
         fnames = Names()
         svc_names = None
         for fi in range(nfiles):
             # unversioned packages with sub-packages are a documented input error of the generator
-            sub = fi > 0 and self.versioned and self.coin("p_subpackage")
+            sub = fi < nfiles - 1 and self.versioned and self.coin("p_subpackage")   # the last file stays in the root package
             pkg = root + (".sub" + ("" if self.d(st.booleans()) else "two") if sub else "")
             base = fnames.fresh(self.d(st.sampled_from(["lib", "types", "resources", "service", "common", "admin"])))
             file = {"name": pkg.replace(".", "/") + f"/{base}.proto", "package": pkg, "messages": [], "enums": [], "services": []}
             names = self.ns(pkg)
             self.cur_pkg = pkg
             # phase 1: skeletons
-            for _ in range(self.d(st.integers(0 if fi else 1, self.p["max_messages"]))):
+            for _ in range(self.d(st.integers(0 if fi < nfiles - 1 else 1, self.p["max_messages"]))):
                 file["messages"].append(self.skeleton(pkg, names, 1, fi))
             for _ in range(self.d(st.integers(0, 2))):
                 e = self.enum(names)
